@@ -95,6 +95,10 @@ type Store struct {
 	// OnMutate runs after every change to the stored state.
 	OnMutate func()
 
+	// BeforeCreate runs at the start of every Create call (after fault
+	// injection): lets a harness model a concurrent writer winning a race.
+	BeforeCreate func(group, kind, ns, name string)
+
 	// Reject makes the API server refuse (as invalid) any write of an object
 	// for which it returns true; the answer is the same in dry-run mode.
 	Reject func(group, kind, ns, name string) bool
@@ -472,6 +476,9 @@ func (s *Store) Create(_ context.Context, obj client.Object, opts ...client.Crea
 		c.Err = true
 		s.log(c)
 		return errInjected
+	}
+	if s.BeforeCreate != nil {
+		s.BeforeCreate(group, kind, c.NS, name)
 	}
 	if s.find(group, kind, c.NS, name) >= 0 {
 		c.Err = true
